@@ -53,6 +53,36 @@ def pair_specs(rng, nlev=None, kinds=None):
     return p, q, (kp, kq)
 
 
+def mesh_eq_tie(rep, case, d1, d2, model):
+    """`reader1 == reader2` against the Lean model `MeshEq.eq` (C06.same_mesh_accepted / different_mesh_refused): the
+    physical bounds as exact rationals, the index ranges, the level limits"""
+    if not model:
+        return
+    from fractions import Fraction as Fr
+    from amr_kitchen import PlotfileCooker
+    try:
+        with quiet():
+            a, b = PlotfileCooker(d1), PlotfileCooker(d2)
+            real = bool(a == b)
+    except Exception:
+        return          # the comparison of readers with different level counts may raise: combine's refusal covers it
+    J = lambda x: [Fr(float(x)).numerator, Fr(float(x)).denominator]
+
+    def lv(r, l):
+        return {"bounds": [[[J(d[0]), J(d[1])] for d in box] for box in r.boxes[l]],
+                "idx": [[[int(x) for x in ix[0]], [int(x) for x in ix[1]]] for ix in r.cells[l]["indexes"]]}
+    try:
+        req = {"op": "mesh_eq", "limA": int(a.limit_level), "limB": int(b.limit_level),
+               "A": [lv(a, l) for l in range(a.limit_level + 1)], "B": [lv(b, l) for l in range(b.limit_level + 1)]}
+    except (ValueError, OverflowError, TypeError, IndexError):
+        return
+    m = leanio.driver([req])[0]
+    if m.get("equal") is real:
+        rep.agree(); rep.count("reader-equality-agrees-with-model:" + str(real))
+    else:
+        rep.tie(f"reader1 == reader2 is {real}, the Lean model MeshEq.eq says {m.get('equal')}", case)
+
+
 def selection_forms(rng, pn, qn):
     pn, qn = list(pn), list(qn)
     out = [(None, None), (None, list(qn)), (" ".join(pn[::-1]), None), (pn[:1], qn[:1]),
@@ -121,6 +151,7 @@ def run_case(ctx, rep, p, q, vars1, vars2, model, kinds=("?", "?"), start=None, 
                 combine(PlotfileCooker(d1), PlotfileCooker(d2), pltout=out, vars1=vars1, vars2=vars2)
     except Exception as e:
         raised = e
+    mesh_eq_tie(rep, case, d1, d2, model)
     if expect_refusal:
         rep.count("mismatch:" + expect_refusal)
         if raised is None:
